@@ -1288,3 +1288,66 @@ for _pid in ('C07', 'C09'):
                 key=lambda width: width.to('m').value
             )""")
 mutant('C17', 'pwm-sample-rounded', DC, "            self.time_variables['pwm'].append(self.pwm)", "            self.time_variables['pwm'].append(round(self.pwm, 6))", 'C17.one')
+
+# ------------------------------------------------------------------------------------------ refactoring round 5
+_EQ_GUARD = """        if not isinstance(other, self.__class__) and \\
+                not issubclass(self.__class__, other.__class__):
+            raise TypeError(
+                f"Cannot compare {self.__class__.__name__} and "
+                f"{other.__class__.__name__}."
+            )
+
+        if self.unit == other.unit:
+            return self.value == other.value
+"""
+_DECO = """def _comparable_operands_only(comparison):
+    @wraps(comparison)
+    def guarded_comparison(self, other):
+        if not isinstance(other, self.__class__) and \\
+                not issubclass(self.__class__, other.__class__):
+            raise TypeError(f"Cannot compare {self.__class__.__name__} and {other.__class__.__name__}.")
+
+        return comparison(self, other)
+
+    return guarded_comparison
+
+
+class UnitBase(ABC):"""
+multi('C05', 'eq-type-guard-in-a-decorator', 'benign', [
+    (UB, "from math import fabs\n", "from functools import wraps\nfrom math import fabs\n"),
+    (UB, "class UnitBase(ABC):", _DECO),
+    (UB, "    def __eq__(self, other: UnitBase) -> None:\n" + _EQ_GUARD, "    @_comparable_operands_only\n    def __eq__(self, other: UnitBase) -> None:\n        if self.unit == other.unit:\n            return self.value == other.value\n")])
+multi('C05', 'eq-type-guard-in-a-decorator-that-only-checks-isinstance', 'mutant', [
+    (UB, "from math import fabs\n", "from functools import wraps\nfrom math import fabs\n"),
+    (UB, "class UnitBase(ABC):", _DECO.replace("        if not isinstance(other, self.__class__) and \\\n                not issubclass(self.__class__, other.__class__):", "        if not isinstance(other, UnitBase):")),
+    (UB, "    def __eq__(self, other: UnitBase) -> None:\n" + _EQ_GUARD, "    @_comparable_operands_only\n    def __eq__(self, other: UnitBase) -> None:\n        if self.unit == other.unit:\n            return self.value == other.value\n")], 'C05.cmp')
+_START_OLD = """        if self.__powertrain.time:
+            initial_time = self.__powertrain.time[-1]
+        else:
+"""
+benign('C12', 'start-instant-by-star-pattern', SV, _START_OLD + """            initial_time = Time(value=0, unit=time_discretization.unit)
+            self.__powertrain_is_locked = False
+            self.__powertrain.update_time(initial_time)
+            self._compute_powertrain_variables(motor_control=motor_control)
+""", """        match self.__powertrain.time:
+            case [*_, last_simulated_instant]:
+                initial_time = last_simulated_instant
+            case _:
+                initial_time = Time(value=0, unit=time_discretization.unit)
+                self.__powertrain_is_locked = False
+                self.__powertrain.update_time(initial_time)
+                self._compute_powertrain_variables(motor_control=motor_control)
+""")
+mutant('C12', 'start-instant-by-star-pattern-first-element', SV, _START_OLD + """            initial_time = Time(value=0, unit=time_discretization.unit)
+            self.__powertrain_is_locked = False
+            self.__powertrain.update_time(initial_time)
+            self._compute_powertrain_variables(motor_control=motor_control)
+""", """        match self.__powertrain.time:
+            case [first_simulated_instant, *_]:
+                initial_time = first_simulated_instant
+            case _:
+                initial_time = Time(value=0, unit=time_discretization.unit)
+                self.__powertrain_is_locked = False
+                self.__powertrain.update_time(initial_time)
+                self._compute_powertrain_variables(motor_control=motor_control)
+""", 'C12')
